@@ -27,6 +27,8 @@ SCRIPTS = [
     "export const answer = 42; export function twice(x) { return x * 2; } export default {k: [1]};",
     "const m = new Map(); m.set('a', {deep: [1, [2, [3]]]}); globalThis.big = Array.from({length: 200}, (x, i) => ({i, s: 'v' + i})); m.get('a')",
     "throw new RangeError('from script')",
+    # objects that own symbol-keyed properties (only a script can make them): the host sees their string keys only
+    "const sy = Symbol('tag'); globalThis.symobj = {a: 1, [sy]: 2, b: 3, [Symbol.iterator]: 4}; globalThis.onlysym = {[sy]: 1}; globalThis.symarr = Object.assign([1, 2], {[sy]: 3, z: 4}); 1",
     "let x = ;",
     "globalThis.p = new Promise(() => {}); globalThis.nat && globalThis.nat(1, 2)",
     "import { order } from 'tsrun:host'; const a = order({n: 1}); const b = order({n: 2}); [await a, await b]",
@@ -212,7 +214,7 @@ def gen_full(rng, n):
                 ops.append(["aget", c, o, rng.choice([0, 1, 10 ** 9])])
                 t.add("res", c)
             else:
-                ops.append(["gget", c, rng.choice(["shared", "cb", "arrow", "big", "got", "viaModule", "p", "nat", "nope", None])])
+                ops.append(["gget", c, rng.choice(["shared", "cb", "arrow", "big", "got", "viaModule", "p", "nat", "nope", "symobj", "onlysym", "symarr", "symobj", None])])
                 t.add("res", c)
         elif k < 0.70:
             c = t.live_ctx()
@@ -326,6 +328,26 @@ def scenarios(rng, n):
 
 def run(ctx):
     rng = ctx.rng
+    # ---- own string keys of script-made objects (symbol-keyed properties are not reported, the count matches the array)
+    ksc = []
+    for i in range(12 if ctx.tier == "quick" else 60):
+        strs = rng.sample(["a", "b", "zz", "k0", "é", "x y"], rng.randint(0, 4))
+        syms = rng.randint(0, 3)
+        parts = ["%s: %d" % (json.dumps(k), j) for j, k in enumerate(strs)] + ["[Symbol('s%d')]: %d" % (j, j) for j in range(syms)] + (["[Symbol.iterator]: 0"] if rng.random() < 0.3 else [])
+        rng.shuffle(parts)
+        arr = rng.random() < 0.25
+        src = "globalThis.target = %s; 1" % ("Object.assign([7, 8], {%s})" % ", ".join(parts) if arr else "{%s}" % ", ".join(parts))
+        want = sorted(strs)          # elements of an array are reached through tsrun_array_len / tsrun_array_get, not listed as keys
+        ksc.append(([["ctx"], ["prepare", 0, src, None], ["run", 0], ["gget", 0, "target"], ["keys", 0, 0]], 4, "k:" + ",".join(want) if want else "null"))
+    kgot = common.harness(["ffi"], [json.dumps(o) for o, _, _ in ksc], timeout=300)
+    for (ops, at, want), g in zip(ksc, kgot):
+        ctx.cov["evaluations"] += 1
+        res = g.split(SEP_OP)
+        have = res[at] if at < len(res) else g[:80]
+        if have.startswith("k:"):
+            have = "k:" + ",".join(sorted(have[2:].split(",")))
+        if have != want:
+            ctx.prop_fail("keys: tsrun_keys reports %s for an object whose own string keys are %s" % (have[:80], want[:80]), {"ops": ops, "impl": g[:300]})
     # ---- host-provided values reach the script intact
     scen = scenarios(rng, 40 if ctx.tier == "quick" else 400)
     sgot = common.harness(["ffi"], [json.dumps(o) for o, _, _ in scen], timeout=900)
@@ -374,7 +396,7 @@ def run(ctx):
         distinct.add(g[:200])
     # ---- everything under memcheck
     vg = shutil.which("valgrind")
-    allseq = hl + [json.dumps(o) for o in full]
+    allseq = hl + [json.dumps(o) for o in full] + [json.dumps(o) for o, _, _ in ksc]
     if vg:
         chunks = [allseq[i::16] for i in range(16)]
         from concurrent.futures import ThreadPoolExecutor
